@@ -48,6 +48,20 @@ def compare(case, spec):
         if c["perturbed"] == 0:
             gaps.append("%s %s: %s not comparable (%s)" % (sysname, case["config"], cl, c.get("first_error")))
             continue
+        if cl == "fri.reduction_strategy":
+            # semantic perturbations (independent of the crate's serialisation): every DIFFERENT strategy value is a
+            # different statement parameter; every challenge drawn after the configuration must change
+            for prm in c.get("params", []):
+                if not prm.get("comparable"):
+                    continue
+                stuck = [ch for ch in prm["unchanged"] if ch in depends and cl in depends[ch]]
+                if stuck:
+                    viol.append(("C04/%s/fri.reduction_strategy/%s" % (sysname, prm["param"].replace("+1", "").replace("-1", "")),
+                                 "altering the reduction strategy (%s) leaves %d challenge(s) unchanged in %s: %s" % (
+                                     prm["param"], len(stuck), case["config"], stuck),
+                                 {"config": case["config"], "cfg": case["cfg"], "component": cl, "param": prm["param"],
+                                  "challenge": stuck[0], "unchanged": stuck, "observed": c}))
+            continue
         for ch in m["challenges"]:
             if ch not in depends:
                 continue
@@ -64,6 +78,14 @@ def compare(case, spec):
         if cl not in m["components"] or m["components"][cl]["atoms"] == 0:
             drift.append("%s %s: specification component %s was not found in the proof" % (sysname, case["config"], cl))
     for d in case.get("program_diffs") or []:
+        cm = d.get("count_mismatch") if isinstance(d, dict) else None
+        if cm and cm["code"] < cm["specification"]:
+            # an absorbed component shorter than the specification's: some parameter of it is not bound
+            viol.append(("C04/%s/%s/absorbs-%d-of-%d" % (sysname, cm["class"], cm["code"], cm["specification"]),
+                         "the code absorbs %d element(s) of %s, the specification %d (one per parameter) in %s" % (
+                             cm["code"], cm["class"], cm["specification"], case["config"]),
+                         {"config": case["config"], "cfg": case["cfg"], "component": cm["class"], "count_mismatch": cm}))
+            continue
         drift.append("%s %s: TLC's observe/squeeze program re-executed on the real data differs from get_challenges: %s" % (
             sysname, case["config"], json.dumps(d)[:300]))
     return viol, drift, gaps
@@ -95,6 +117,8 @@ def run(chk, tier):
     jobs = [("Transcript", "Transcript" + lat, 6, None), ("StarkTranscript", "StarkTranscript" + lat, 6, None),
             ("Transcript", "Transcript_mutants", 2, None), ("StarkTranscript", "StarkTranscript_mutants", 2, None)]
     jobs += [(m, c, 1, None) for m, c in CANARIES]
+    jobs += [("Transcript", "Transcript_canary_encode_drops_final_bits", 1, None),
+             ("StarkTranscript", "StarkTranscript_canary_encode_drops_final_bits", 1, None)]
     with ThreadPoolExecutor(max_workers=5) as ex:
         fut_cfgs = ex.submit(common.vh, ["cfgs"] + tier_args, binname="c04", timeout=900)
         futs = [ex.submit(_run_tlc, j) for j in jobs]
@@ -113,6 +137,10 @@ def run(chk, tier):
         res = dict(f.result() for f in futs)
     spec = {"plonk": {}, "stark": {}}
     for (mod, cfg), r in res.items():
+        if "canary_encode" in cfg:
+            chk.canary("spec-mutant %s: a strategy encoding without final_poly_bits is refuted (injective / complete encoding)" % cfg,
+                       str(r.violated).startswith("ASSUME"))
+            continue
         if "canary" in cfg:
             chk.canary("spec-mutant %s: dropping the observe violates FS1" % cfg.replace("_canary_", " without "), r.violated == "FS1")
             continue
@@ -185,6 +213,24 @@ def run(chk, tier):
             pi = c["matrix"]["components"]["public_input"]
             if pi["perturbed"] != c["cfg"]["npi"]:
                 raise ToolError("vacuous: %s: %d of %d public-input positions perturbed" % (c["config"], pi["perturbed"], c["cfg"]["npi"]))
+        # every parameter of the reduction strategy, for each strategy variant
+        for variant in ("fixed", "cab", "minsize"):
+            okv = False
+            for c in mine:
+                if c["cfg"]["strat"] != variant:
+                    continue
+                prm = c["matrix"]["components"]["fri.reduction_strategy"].get("params", [])
+                names = {x["param"] for x in prm}
+                need = {"cab": {"cab.arity_bits+1", "cab.final_poly_bits+1", "variant->fixed", "variant->minsize"},
+                        "fixed": {"fixed.append", "variant->cab", "variant->minsize"},
+                        "minsize": {"minsize.none<->some", "variant->cab", "variant->fixed"}}[variant]
+                if prm and all(x["comparable"] for x in prm) and need <= names:
+                    okv = True
+            if not okv:
+                raise ToolError("vacuous: no %s case with strategy %s had every strategy parameter perturbed" % (sysname, variant))
+        if not any("fixed.arity[0]+1" in {x["param"] for x in c["matrix"]["components"]["fri.reduction_strategy"].get("params", [])}
+                   for c in mine):
+            raise ToolError("vacuous: no %s case perturbs an element of a Fixed arity list" % sysname)
         if sysname == "stark" and not any(c["cfg"].get("npifree", 0) > 0 for c in mine):
             raise ToolError("vacuous: no STARK case has a public input outside every constraint (the only kind whose "
                             "binding rests on the observe step alone)")
@@ -200,6 +246,7 @@ def run(chk, tier):
                            "configurations": sorted({c["config"] for c in cases}),
                            "programs_reexecuted_on_real_data": replayed}
     chk.extra["not_comparable"] = sorted(set(all_gaps))[:20]
+    chk.extra["strategy_encoding_probe"] = next((c["strategy_encoding_probe"] for c in cases if "strategy_encoding_probe" in c), None)
     nc = {}
     for c in cases:
         for k, v in (c.get("not_components") or {}).items():
@@ -220,6 +267,16 @@ def run(chk, tier):
     v, _, _ = compare(bad, spec["stark"][_key(bad["cfg"])])
     chk.canary("an observed STARK matrix where the pow witness does not reach the query indices is reported",
                any(k == "C04/stark/pow_witness->fri_query_indices" for k, _, _ in v))
+    v, _, _ = compare(dict(first, program_diffs=[{"count_mismatch": {"class": "fri.reduction_strategy", "specification": 3, "code": 2}}]),
+                      spec["plonk"][_key(first["cfg"])])
+    chk.canary("a transcript component absorbed with fewer elements than the specification's is reported as VIOLATION",
+               any(k.startswith("C04/plonk/fri.reduction_strategy/absorbs-2-of-3") for k, _, _ in v))
+    bad = json.loads(json.dumps(st))
+    prm = bad["matrix"]["components"]["fri.reduction_strategy"]["params"]
+    prm[0]["unchanged"] = list(bad["matrix"]["challenges"])
+    v, _, _ = compare(bad, spec["stark"][_key(bad["cfg"])])
+    chk.canary("a strategy parameter whose alteration changes no challenge is reported",
+               any(k.startswith("C04/stark/fri.reduction_strategy/") for k, _, _ in v))
     _, d, _ = compare(dict(first, program_diffs=[{"challenge": "plonk_zeta"}]), spec["plonk"][_key(first["cfg"])])
     chk.canary("a difference between TLC's program and get_challenges is reported as DRIFT", len(d) > 0)
 
